@@ -2,7 +2,7 @@
 # dev helper: ./t.sh TestName checks [extra go test args]; prints the failing case file
 export GOFLAGS=-mod=mod GOPROXY=off GOSUMDB=off GOTOOLCHAIN=local
 rm -rf /dev/shm/vdev; mkdir -p /dev/shm/vdev
-cd /verif/harness
+rm -rf /verif/harness/props/testdata; cd /verif/harness
 T=$1; N=${2:-1000}; shift; shift
 VERIF_OUT=/dev/shm/vdev go test -tags verif -count=1 -run "^$T\$" ./props -rapid.checks=$N -rapid.shrinktime=15s "$@" 2>&1 | grep -v '\[rapid\] draw' | tail -30
 ls /dev/shm/vdev
